@@ -9,6 +9,7 @@ import (
 	"net"
 	"os"
 	"regexp"
+	"runtime"
 	"strconv"
 	"strings"
 	"sync"
@@ -329,7 +330,34 @@ func runC17(r *Result, d *drv.Driver, tier string, seed int64, replay string) {
 		wall  time.Duration
 		err   error
 	}
+	// first on a single P, one sequence at a time, the sequences in which a connection is accepted and Accept has the next
+	// outcome ready at once: the accept loop runs on without yielding, the session goroutine it has just started runs later -
+	// anything that goroutine reads from the loop's variables it reads after the loop has moved on
+	nPar := len(seqs)
+	var extraSeqs [][]string
+	var extraReplies []string
+	var extraResults []res
+	oldP := runtime.GOMAXPROCS(1)
+	for i := 0; i < nPar; i++ {
+		ks := 0
+		for j, o := range seqs[i] {
+			if (o[0] == 'K' || o[0] == 'L') && j+1 < len(seqs[i]) {
+				ks++
+			}
+		}
+		if ks == 0 {
+			continue
+		}
+		crumb("C17 accept outcomes " + strings.Join(seqs[i], " ") + " (single P, one sequence at a time)")
+		t, w, e := runAcceptSeq(seqs[i])
+		extraSeqs = append(extraSeqs, seqs[i])
+		extraReplies = append(extraReplies, replies[i])
+		extraResults = append(extraResults, res{t, w, e})
+		r.Stats["single-P-sequences"]++
+	}
+	runtime.GOMAXPROCS(oldP)
 	results := make([]res, len(seqs))
+	crumb(fmt.Sprintf("C17 all %d accept sequences, 32 at a time", len(seqs)))
 	var wg sync.WaitGroup
 	sem := make(chan struct{}, 32)
 	for i := range seqs {
@@ -343,8 +371,14 @@ func runC17(r *Result, d *drv.Driver, tier string, seed int64, replay string) {
 		}(i)
 	}
 	wg.Wait()
+	seqs = append(seqs, extraSeqs...)
+	replies = append(replies, extraReplies...)
+	results = append(results, extraResults...)
 	for i, s := range seqs {
 		key := strings.Join(s, " ")
+		if i >= nPar {
+			key += " (single P)"
+		}
 		r.eval(key, len(s) > 1)
 		for _, o := range s {
 			r.Stats["outcome:"+o[:1]]++
